@@ -1,6 +1,7 @@
 package main
 
 import (
+	"fmt"
 	"strings"
 
 	"golang.org/x/tools/go/ssa"
@@ -126,6 +127,69 @@ func init() {
 					}
 					r.Cond(ok, "C03.recover", FnName(fn)+"#participant-index", ap.Pos(), "valid participants are big.NewInt(int64(share.I)) of the visited element")
 				}
+			}
+
+			// ---- recovery is a function of its arguments only: no package-level
+			// state that is written at run time is reachable from Recover*
+			r.Rule("C03.pure", "recovery reads no run-time-mutable package state (same inputs ⇒ same result, whatever was recovered before)", 2)
+			written := map[*ssa.Global]string{}
+			for _, f := range r.W.AllFuncs {
+				if f.Name() == "init" || strings.HasPrefix(f.Name(), "init#") {
+					continue
+				}
+				EachInstr(f, func(in ssa.Instruction) {
+					switch x := in.(type) {
+					case *ssa.Store:
+						if g, ok := addrRoot(x.Addr).(*ssa.Global); ok {
+							written[g] = FnName(f)
+						}
+					case *ssa.MapUpdate:
+						if g, ok := addrRoot(x.Map).(*ssa.Global); ok {
+							written[g] = FnName(f)
+						}
+					case ssa.CallInstruction:
+						// &global handed to a pointer-receiver method (sync.Map, mutex-guarded caches …)
+						if a := x.Common().Args; len(a) > 0 && !x.Common().IsInvoke() {
+							if g, ok := a[0].(*ssa.Global); ok && x.Common().Signature().Recv() != nil {
+								written[g] = FnName(f) + " via " + shortCallee(x)
+							}
+						}
+					}
+				})
+			}
+			for _, name := range []string{"RecoverSignature", "RecoverPublicKey"} {
+				root := r.W.Fn("pkg/bls", name)
+				if root == nil {
+					continue
+				}
+				seen := map[*ssa.Function]bool{}
+				var bad []string
+				var visit func(f *ssa.Function, d int)
+				visit = func(f *ssa.Function, d int) {
+					if f == nil || f.Blocks == nil || seen[f] || d == 0 {
+						return
+					}
+					seen[f] = true
+					EachInstr(f, func(in ssa.Instruction) {
+						for _, op := range in.Operands(nil) {
+							if g, ok := (*op).(*ssa.Global); ok {
+								if w, isW := written[g]; isW {
+									bad = append(bad, g.Name()+" (written by "+w+")")
+								}
+							}
+						}
+						if c, ok := in.(ssa.CallInstruction); ok {
+							if callee := staticCallee(c); callee != nil && callee.Pkg != nil && strings.HasPrefix(callee.Pkg.Pkg.Path(), modPath) {
+								visit(callee, d-1)
+							}
+						}
+					})
+					for _, a := range f.AnonFuncs {
+						visit(a, d-1)
+					}
+				}
+				visit(root, 8)
+				r.Cond(len(bad) == 0, "C03.pure", FnName(root)+"#globals", root.Pos(), fmt.Sprintf("%d repository function(s) reachable; run-time-written package variables read: %s", len(seen), strings.Join(bad, ", ")))
 			}
 
 			// ---- relay entry: only verified shares
